@@ -43,8 +43,9 @@ def run(ev, vd):
                                      env={"VERIF_SCHED_OUT": os.path.join(BUILD, "replay", "C05-sched-%d.txt" % k)})
         return j, out, rc, o
     os.makedirs(os.path.join(BUILD, "replay"), exist_ok=True)
-    with cf.ThreadPoolExecutor(max_workers=8) as ex:
-        results = list(ex.map(job, list(enumerate(jobs))))
+    # controlled runs keep one thread running at a time and go side by side; free-running and jittered runs spin with up to all
+    # cores and collapse when several of them share the machine, so they run one after the other
+    results = conc.pmap(job, list(enumerate(jobs)), lambda j: j[1][0])
     paths = []
     for (k, (mode, binp, topo, kinds)), out, rc, o in results:
         if rc == 124:
